@@ -37,6 +37,14 @@ def run(ctx):
                 for blk in blocks:
                     ev.append(R.ev_crypt(obj, cirec, 'enc', blk)); ev.append(R.ev_crypt(obj, cirec, 'dec', blk))
                     ctx.mark((c, n, ki, blk.hex()[:16], T.hex()[:8]))
+    for c, n in plan:
+        bl = 8 if c == 'des' else (n if c == 'threefish' else 16)
+        K = bytes(rnd.randrange(256) for _ in range(n)); T = bytes(rnd.randrange(256) for _ in range(16)) if c == 'threefish' else b''
+        obj = R.construct(c, [K], T); cirec = R.ci(c, [K], T)
+        gen = lambda i, bl=bl: bytes(rnd.randrange(256) for _ in range(bl))
+        for op in ('enc', 'dec'):
+            for blk in core.zero_edge_inputs(lambda x, op=op: getattr(obj, op)(x), gen, want=2 if big else 1, tries=600 if bl <= 32 else 150):
+                ev.append(R.ev_crypt(obj, cirec, op, blk)); ctx.mark((c, n, 'zero-edge', op, blk.hex()[:8]))
     # (c) keying forms: TDEA (separate keys, one string), Serpent key lengths 1..32
     def k8(): return bytes(rnd.randrange(256) for _ in range(8))
     for rep in range(4 if big else 2):
